@@ -241,7 +241,7 @@ structure State where
   params : NodeParams
   faults : List Fault
   faultIdx : List FaultIdx
-  fishing : Map StrId Dec
+  fishing : List ((Nat × Nat) × Dec)   -- key: (0, account address) or (1, interned other string such as "Insurance")
   workers : List Worker
   did : DidState
   staking : StakingView
